@@ -11,7 +11,7 @@ from ..core import REPO
 N_CASES = {"quick": 250, "thorough": 10000}
 TIME_BUDGET = {"quick": 60, "thorough": 270}
 META = {
-    "rule": "generated models Event/Jet/Trk with harness-owned callbacks placed at random on classes, methods, both, function processors and "
+    "rule": "generated models Event/Jet/Trk (Jet and Trk inherit methods from a Particle base class, which may carry callbacks of its own) with harness-owned callbacks placed at random on classes, methods, both, function processors and "
     "parameterized properties, each callback optionally rewriting the call site (rename method / append argument); generated lambdas "
     "with 1-6 marked call sites (unique integer marker per site) at lambda depth 0-3 inside Select/Where/SelectMany of the stream and of "
     "typed collections, several sites per lambda, sites in both branches of a conditional, parameter tuples of ints and strs; oracle "
